@@ -496,12 +496,6 @@ Definition get_formatted (ctx : dict) (key : string) (v : val) : res val :=
 
 Definition is_mapping (v : val) : bool := match v with VDict _ => true | _ => false end.
 
-Definition has_len (v : val) : bool :=
-  match v with
-  | VStr _ | VBytes _ | VList _ | VTuple _ | VSet _ | VDict _ => true
-  | _ => false
-  end.
-
 (** ** filewrite{json,yaml,toml}.run_step *)
 Definition write_step (f : fmt) (c : codec) (ctx : dict) (files : fs) : res fs :=
   let* arg := assert_has_value ctx (write_key f) (write_mod f) None in
@@ -538,10 +532,10 @@ Definition not_mapping_msg (f : fmt) : string :=
   | FToml => ""
   end.
 
-(** ** fetch{json,yaml,toml}.run_step.  The key is used when truthy; otherwise the parsed
-    mapping is merged into the context root.  The closing log line takes [len(payload)]:
-    for a parsed scalar that has no length it raises TypeError (after the context was
-    updated; the updated context is not part of the result then). *)
+(** ** fetch{json,yaml,toml}.run_step.  The key is used when truthy (any document, a
+    scalar root included, is stored under it); otherwise the parsed mapping is merged into
+    the context root.  (The closing log line takes len(payload) only when the payload has a
+    length.) *)
 Definition fetch_step (f : fmt) (c : codec) (ctx : dict) (files : fs) : res dict :=
   let* arg := assert_has_value ctx (fetch_key f) (fetch_mod f) None in
   let* inp := get_formatted ctx (fetch_key f) arg in
@@ -560,7 +554,6 @@ Definition fetch_step (f : fmt) (c : codec) (ctx : dict) (files : fs) : res dict
       | None => Err "FileNotFoundError" ("[Errno 2] No such file or directory: " ++ repr_str path)
       | Some text =>
           let* payload := c_parse c text in
-          let* ctx' :=
             if py_truth key then
               match key with
               | VStr _ | VInt _ | VBool _ => Ok (dict_set key payload ctx)
@@ -574,9 +567,7 @@ Definition fetch_step (f : fmt) (c : codec) (ctx : dict) (files : fs) : res dict
                   | FToml => Unsup      (* a TOML document is always a table *)
                   | _ => Err "TypeError" (not_mapping_msg f)
                   end
-              end in
-          if has_len payload then Ok ctx'
-          else Err "TypeError" ("object of type '" ++ type_name payload ++ "' has no len()")
+              end
       end
   | _ => Unsup
   end.
